@@ -85,8 +85,8 @@ theorem gExtra_strictAnti (Vm E f γ R₁ R₂ : α) (hVm : 0 < Vm) (hf : 0 < f)
   simp only [gExtra]
   have hc : 0 < 2 * f * γ := by positivity
   have : 2 * f * γ / R₂ < 2 * f * γ / R₁ := div_lt_div_of_pos_left hc h1 h12
-  have := mul_lt_mul_of_pos_left (add_lt_add_left this E) hVm
-  simpa using this
+  have h3 : E + 2 * f * γ / R₂ < E + 2 * f * γ / R₁ := by linarith
+  exact mul_lt_mul_of_pos_left h3 hVm
 
 /-! ### multicomponent growth law: sign change exactly at the critical radius -/
 
@@ -208,7 +208,30 @@ theorem kwn_before_zero_iff (kf mc R dGv Vm E f γ : α) (hkf : 0 < kf) (hmc : 0
     simp only [growthMultiKWN_before]
     have := hVm.ne'; have := hR.ne'
     field_simp
+    ring
   rw [this, pos_mul_eq_zero_iff (by positivity), crossing_zero_iff f γ _ R hd]
+
+/-- an arbitrary interpretation of the transcendental atoms over ℚ, used only to state concrete witnesses
+(none of the C12 definitions uses a transcendental function; `gcrit` uses π, which plays no role here) -/
+def ratTrans : Trans ℚ where
+  pi := 3
+  sqrt := id
+  cbrt := id
+  exp := id
+  log := id
+  sin := id
+  cos := id
+  tan := id
+  arcsin := id
+  arccos := id
+  arctan := id
+  tanh := id
+  arctanh := id
+  arccosh := id
+  pow := fun a _ => a
+  abs := fun a => |a|
+
+attribute [local instance] ratTrans
 
 /-- **witness of the defect** (earlier formula): `Vm = f = γ = E = 1`, chemical driving force 3, so `dG_vol = 2`,
 `Rcrit = 1`; the class of radius 3/2 is larger than the critical radius and SHRINKS. -/
@@ -474,15 +497,16 @@ theorem foldl_step_xM (rs : List (Rec β)) (st : St β) (hs : Ordered rs) (g : N
       | true =>
         rw [step_two st r hle h2, ih _ hs']
         by_cases hg : r.ge = g
-        · have hself : sel st.gIndex g r = true := by simp [sel, h2, hg, ← hg, hle]
-          have hn : rs.find? (sel (r.ge + 1) g) = none := by
+        · subst hg
+          have hself : sel st.gIndex r.ge r = true := by simp [sel, h2, hle]
+          have hn : rs.find? (sel (r.ge + 1) r.ge) = none := by
             rw [List.find?_eq_none]
             intro x hx
             have h1 : r.ge ≤ x.ge := hr x hx
             simp only [sel, Bool.and_eq_true, decide_eq_true_eq, not_and]
             intro ⟨_, h4⟩ h5
             omega
-          simp [List.find?_cons, hself, hn, upd, hg]
+          simp [List.find?_cons, hself, hn, upd]
         · have hself : sel st.gIndex g r = false := by simp [sel, hg]
           have hc : rs.find? (sel (r.ge + 1) g) = rs.find? (sel st.gIndex g) := by
             apply find?_congr_mem
@@ -529,15 +553,16 @@ theorem foldl_step_xP (rs : List (Rec β)) (st : St β) (hs : Ordered rs) (g : N
       | true =>
         rw [step_two st r hle h2, ih _ hs']
         by_cases hg : r.ge = g
-        · have hself : sel st.gIndex g r = true := by simp [sel, h2, hg, ← hg, hle]
-          have hn : rs.find? (sel (r.ge + 1) g) = none := by
+        · subst hg
+          have hself : sel st.gIndex r.ge r = true := by simp [sel, h2, hle]
+          have hn : rs.find? (sel (r.ge + 1) r.ge) = none := by
             rw [List.find?_eq_none]
             intro x hx
             have h1 : r.ge ≤ x.ge := hr x hx
             simp only [sel, Bool.and_eq_true, decide_eq_true_eq, not_and]
             intro ⟨_, h4⟩ h5
             omega
-          simp [List.find?_cons, hself, hn, upd, hg]
+          simp [List.find?_cons, hself, hn, upd]
         · have hself : sel st.gIndex g r = false := by simp [sel, hg]
           have hc : rs.find? (sel (r.ge + 1) g) = rs.find? (sel st.gIndex g) := by
             apply find?_congr_mem
@@ -720,12 +745,14 @@ theorem fill_removes_sentinel (n k : Nat) (sent zero : α) (xa : Nat → α) (hk
     (i < k → fillPrefix n zero (rdfi n sent xa) xa i = xa k) := by
   rw [rdfi_prefix n k sent xa hk1 hkn hun (hst k (le_refl k) hkn)]
   have hk : k - 1 + 1 = k := by omega
-  unfold fillPrefix
-  simp only [hk, hkn, if_true]
+  have hfill : fillPrefix n zero (k - 1) xa i = if i < k then xa k else xa i := by
+    unfold fillPrefix
+    simp only [hk, hkn, if_true]
+  rw [hfill]
   by_cases hik : i < k
-  · simp only [hik, if_true]
+  · rw [if_pos hik]
     exact ⟨hst k (le_refl k) hkn, fun _ => rfl⟩
-  · simp only [hik, if_false]
+  · rw [if_neg hik]
     exact ⟨hst i (by omega) hi, fun h => absurd h hik⟩
 
 /-- with every class unstable the table keeps the sentinel in every entry (it is not zeroed) -/
@@ -760,6 +787,7 @@ end rdfi
 /-! ### non-vacuity: the hypothesis sets are satisfiable -/
 
 section nonvacuity
+attribute [local instance] ratTrans
 
 /-- Gibbs–Thomson at the critical radius with strain energy and a non-spherical factor: Vm = 2, E = 1, f = 3,
 γ = 1/2, dG = 10 ⇒ dG_vol = 4, Rcrit = 3/4, gExtra(Rcrit) = 2·(1 + 3/(3/4)) = 10 -/
